@@ -33,7 +33,7 @@ ASSUMPTIONS = ['whether a replaced owner is dropped or re-queued is not stated: 
                'a queued (non-owner) client releasing the name is answered RELEASED, as the specification defines '
                'NOT_OWNER as "neither owner nor in the queue"']
 
-NAMES = ['org.verif.N0', 'org.verif.N1']
+NAMES = ['org.verif.my-name0', 'org.verif.N_1']     # a hyphen is legal in bus names (not in interface names): use one
 BUS = 'org.freedesktop.DBus'
 
 
